@@ -78,6 +78,8 @@ pub mod encryption;
 pub mod error;
 mod groups;
 pub mod keyring;
+#[cfg(mdk_verif)]
+pub mod verif_hooks;
 mod messages;
 mod migrations;
 mod mls_storage;
@@ -450,10 +452,13 @@ impl MdkSqliteStorage {
     /// Provides access to the underlying connection for MDK storage operations.
     ///
     /// This method is for internal use by the group, message, and welcome storage implementations.
+    #[cfg_attr(mdk_verif, track_caller)]
     pub(crate) fn with_connection<F, T>(&self, f: F) -> T
     where
         F: FnOnce(&Connection) -> T,
     {
+        #[cfg(mdk_verif)]
+        crate::verif_hooks::tick_here();
         let conn = self.connection.lock().unwrap();
         f(&conn)
     }
@@ -472,9 +477,13 @@ impl MdkSqliteStorage {
             .map_err(|e| Error::Database(format!("Time error: {}", e)))?
             .as_secs() as i64;
 
+        #[cfg(mdk_verif)]
+        crate::verif_hooks::tick("snapshot:begin");
         // Begin transaction for atomicity
         conn.execute("BEGIN IMMEDIATE", [])
             .map_err(|e| Error::Database(e.to_string()))?;
+        #[cfg(mdk_verif)]
+        crate::verif_hooks::tick("snapshot:in-tx");
 
         let result = (|| -> Result<(), Error> {
             // Helper to insert snapshot rows
@@ -536,6 +545,8 @@ impl MdkSqliteStorage {
 
         match result {
             Ok(()) => {
+                #[cfg(mdk_verif)]
+                crate::verif_hooks::tick("snapshot:before-commit");
                 conn.execute("COMMIT", [])
                     .map_err(|e| Error::Database(e.to_string()))?;
                 Ok(())
@@ -926,9 +937,13 @@ impl MdkSqliteStorage {
                 .map_err(|e| Error::Database(e.to_string()))?
         };
 
+        #[cfg(mdk_verif)]
+        crate::verif_hooks::tick("restore:begin");
         // Begin transaction for atomicity - critical to prevent data loss on failure
         conn.execute("BEGIN IMMEDIATE", [])
             .map_err(|e| Error::Database(e.to_string()))?;
+        #[cfg(mdk_verif)]
+        crate::verif_hooks::tick("restore:in-tx");
 
         let result = (|| -> Result<(), Error> {
             // 2. Delete current rows for this group from all 7 tables
@@ -983,6 +998,8 @@ impl MdkSqliteStorage {
                 .map_err(|e| Error::Database(e.to_string()))?;
             }
 
+            #[cfg(mdk_verif)]
+            crate::verif_hooks::tick("restore:after-deletes");
             // 3. Restore from in-memory snapshot data
             // IMPORTANT: We must restore "groups" first because group_relays and
             // group_exporter_secrets have FK constraints that reference groups.
@@ -1159,6 +1176,8 @@ impl MdkSqliteStorage {
 
         match result {
             Ok(()) => {
+                #[cfg(mdk_verif)]
+                crate::verif_hooks::tick("restore:before-commit");
                 conn.execute("COMMIT", [])
                     .map_err(|e| Error::Database(e.to_string()))?;
                 Ok(())
@@ -1172,6 +1191,8 @@ impl MdkSqliteStorage {
 
     /// Deletes a snapshot that is no longer needed.
     fn delete_group_snapshot(&self, group_id: &GroupId, name: &str) -> Result<(), Error> {
+        #[cfg(mdk_verif)]
+        crate::verif_hooks::tick("snapshot:release");
         let conn = self.connection.lock().unwrap();
         conn.execute(
             "DELETE FROM group_state_snapshots WHERE snapshot_name = ? AND group_id = ?",
